@@ -55,7 +55,7 @@ MANIFEST = {
 MODULES = ["PrimaiteModel.Props.C08", "PrimaiteModel.Props.C08Forward", "PrimaiteModel.Lemmas.ForwardInv",
            "PrimaiteModel.Props.C08Addressee", "PrimaiteModel.Props.C08Liveness", "PrimaiteModel.Props.C08FuelMono",
            "PrimaiteModel.Props.C08Termination", "PrimaiteModel.Props.C08RouteOps", "PrimaiteModel.Props.C08Cold",
-           "PrimaiteModel.Props.C08ColdRouter", "PrimaiteModel.Props.C08HostHop"]
+           "PrimaiteModel.Props.C08ColdRouter", "PrimaiteModel.Props.C08HostHop", "PrimaiteModel.Props.C08Metric"]
 EXE = "drv_c08"
 
 
@@ -120,6 +120,42 @@ def _run_route(ctx: Ctx):
                       f"impl={impl2[i2] if i2 < len(impl2) else None!r} model={model2[i2] if i2 < len(model2) else None!r}",
                       {"rig": "route", "case": small, "lines": lines2, "impl": impl2, "model": model2, "from": name})
     ctx.oblige("rig:R-route agrees on every trace", "correspondence", agree == len(cases), f"{len(cases) - agree} of {len(cases)} traces disagree")
+    # float metrics (inf / -inf / nan) against Model/RouteMetric.lean; the tie-break oracle on what is comparable
+    frng = ctx.rng.fork("route-float")
+    fcases = [json.loads(f.read_text())["case"] for f in sorted((VERIF / "corpus" / "C08").glob("floatroute_*.json"))]
+    fcases += [rroute.gen_float_case(frng) for _ in range(ctx.scale(300, 3000))]
+    flines, fbounds, fimpl = [], [], []
+    for c in fcases:
+        ls = rroute.float_model_lines(c)
+        fbounds.append((len(flines), len(ls)))
+        flines += ls
+        fimpl.append(rroute.run_impl_float(c))
+    fout = run_driver(EXE, flines)
+    fagree = 0
+    reported = 0
+    for c, impl, (st0, ln) in zip(fcases, fimpl, fbounds):
+        model = fout[st0:st0 + ln]
+        ctx.cov["traces_validated_against_impl"] += 1
+        kinds = {str(o["route"]["metric"]) for o in c["ops"] if o["op"] == "add"}
+        for kd in ("inf", "-inf", "nan"):
+            if kd in kinds:
+                ctx.count("route-float-metric:" + kd)
+        ctx.case(["route-float", c], any(a.startswith("route") for a in impl))
+        if impl == model:
+            fagree += 1
+        else:
+            i = next(j for j, (a, b) in enumerate(zip(impl, model)) if a != b)
+            ctx.violation({"kind": "model-vs-impl", "rig": "route-float"}, f"find_best_route with float metrics differs from the model at "
+                          f"{flines[st0 + i]}: impl={impl[i]!r} model={model[i]!r}", {"rig": "route-float", "case": c})
+        bad = rroute.float_oracle(c, impl)
+        if bad:
+            ctx.count("route-float-nan-tiebreak-violations")
+            if reported < 1:
+                reported += 1
+                ctx.violation({"kind": "route-oracle", "site": "RouteTable.find_best_route", "metric": "nan"}, bad,
+                              {"rig": "route-float", "case": c})
+    ctx.oblige("rig:R-route (float metrics) agrees on every trace", "correspondence", fagree == len(fcases),
+               f"{len(fcases) - fagree} of {len(fcases)} traces disagree")
 
 
 # ---------------------------------------------------------------------------------------------- R-net
@@ -332,6 +368,10 @@ def replay(rec: dict) -> bool:
     if r.get("rig") == "route":
         ok, impl, *_ = _route_diff(case)
         return ok and rroute.oracle(case, impl) is None
+    if r.get("rig") == "route-float":
+        impl = rroute.run_impl_float(case)
+        model = run_driver(EXE, rroute.float_model_lines(case))
+        return impl == model and rroute.float_oracle(case, impl) is None
     if r.get("rig") == "app":
         ok, impl, model, i, records = _app_diff(case)
         return ok and rnet.oracle(dict(case, consistent=case["app"]["mode"] == "all"), records) is None
